@@ -3,6 +3,7 @@ package props
 // C09 — world lock: held exactly while queries are open; blocks every structural change.
 
 import (
+	"encoding/json"
 	"testing"
 
 	"verifharness/core"
@@ -26,6 +27,56 @@ func TestC09(t *testing.T) {
 		},
 		Mix:      mix,
 		MaxPlain: 4, MaxRel: 2,
+		// the world's listener: none, everything, or restricted to event types / components (the
+		// removal-event lock is only taken when the listener is interested in the removal)
+		CaseCfg: func(rt *rapid.T, cfg core.SimConfig, u *core.Universe) core.SimConfig {
+			switch rapid.IntRange(0, 3).Draw(rt, "listener") {
+			case 0:
+			case 1:
+				cfg.Listener = "full"
+			default:
+				n := u.N()
+				sp := &core.SubSpec{Kind: "rec", S: rapid.IntRange(0, 63).Draw(rt, "ls") | 2}
+				if rapid.Bool().Draw(rt, "lc") {
+					sp.HasC = true
+					perm := rapid.Permutation(seqInts(n)).Draw(rt, "lcomps")
+					sp.C = append([]int{}, perm[:rapid.IntRange(1, n).Draw(rt, "nlc")]...)
+				}
+				cfg.Listener, cfg.ListenerSpec = "spec", sp
+			}
+			return cfg
+		},
+		Setup: func(rt *rapid.T, sim *core.Sim, g *core.Gen) {
+			if sim.Cfg.ListenerSpec != nil {
+				sim.ReplayExtra = sim.Cfg.ListenerSpec
+				sim.Case.Label("restricted listener")
+			} else if sim.Cfg.Listener == "full" {
+				sim.ReplayExtra = &core.SubSpec{Kind: "full"}
+				sim.Case.Label("full listener")
+			}
+			g.TargetRemovalPct = 20
+		},
+		Replay: func(t *testing.T, r *core.Replay, st *core.Stats) {
+			cfg := core.SimConfig{Prop: "C09", Owned: core.Own(core.CatLock, core.CatInvLocks), Verify: core.FullVerify}
+			if r.Extra != nil {
+				b, _ := json.Marshal(r.Extra)
+				var sp core.SubSpec
+				if json.Unmarshal(b, &sp) == nil {
+					if sp.Kind == "full" {
+						cfg.Listener = "full"
+					} else if sp.Kind != "" {
+						cfg.Listener, cfg.ListenerSpec = "spec", &sp
+					}
+				}
+			}
+			sim := core.NewSim(t, cfg, r.Universe, st, nil)
+			for _, op := range r.Ops {
+				sim.Apply(op)
+				if sim.Done() {
+					return
+				}
+			}
+		},
 		Draw: func(rt *rapid.T, sim *core.Sim, g *core.Gen) []core.Op {
 			if rapid.IntRange(0, 99).Draw(rt, "lock?") < 30 {
 				lo := g.DrawLockOp(rt, sim.Step)
@@ -53,7 +104,7 @@ func TestC09(t *testing.T) {
 			}
 			return nil
 		},
-		Rule: "generated world histories interleaved with lock episodes (30% of steps): (a) 1-6 nested queries through plain and registered filters, each released by a generated path (exhaustion by Next, exhaustion by Step(k), Close, Close after Count, Close after EntityAt, Next then Close) in a generated order; (b) the lock of the query returned by a Q-variant batch call, and the lock held while a removal event is delivered; (c) opening queries up to the limit (256 / 64), one more, closing all in a generated order. While locked the COMPLETE table of ID-based structural entry points is walked with arguments that are legal in the current state (27 entries: NewEntity, NewEntityWith, Builder.New/NewBatch/NewBatchQ/Add, RemoveEntity, Batch.RemoveEntities, Add, Remove, Exchange, Assign, Relations.Set/Exchange, Batch.Add/Remove/Exchange/SetRelation and Relations.ExchangeBatch each with Q variant, Reset, LoadEntities, first-time TypeID) plus no-effect forms (empty lists, same target, filter matching nothing): each call must panic with the locked-world message, the hook's digest of the hidden state must be byte-identical before/after, IsLocked stays true; lock-bit count == number of open queries after every open/release; after the last release the world is unlocked and the first refused call is executed again and must succeed and match the model; non-trivial = an episode with nesting depth >= 2, or a lock held by a batch-result query / removal event, or the limit episode",
+		Rule: "generated world histories (world listener: none / everything / restricted to generated event types and components) interleaved with lock episodes (30% of steps): (a) 1-6 nested queries through plain and registered filters, each released by a generated path (exhaustion by Next, exhaustion by Step(k), Close, Close after Count, Close after EntityAt, Next then Close) in a generated order; (b) the lock of the query returned by a Q-variant batch call, and the lock held while a removal event is delivered; (c) opening queries up to the limit (256 / 64), one more, closing all in a generated order. While locked the COMPLETE table of ID-based structural entry points is walked with arguments that are legal in the current state (27 entries: NewEntity, NewEntityWith, Builder.New/NewBatch/NewBatchQ/Add, RemoveEntity, Batch.RemoveEntities, Add, Remove, Exchange, Assign, Relations.Set/Exchange, Batch.Add/Remove/Exchange/SetRelation and Relations.ExchangeBatch each with Q variant, Reset, LoadEntities, first-time TypeID) plus no-effect forms (empty lists, same target, filter matching nothing): each call must panic with the locked-world message, the hook's digest of the hidden state must be byte-identical before/after, IsLocked stays true; lock-bit count == number of open queries after every open/release; after the last release the world is unlocked and the first refused call is executed again and must succeed and match the model; non-trivial = an episode with nesting depth >= 2, or a lock held by a batch-result query / removal event, or the limit episode",
 		Observe: func(tr *tracker, op *core.Op) {
 			switch op.K {
 			case core.OpLockEpisode:
